@@ -162,7 +162,9 @@ class ParsedDocstring(abc.ABC):
         """
         try:
             document = self.to_node()
-        except NotImplementedError:
+        except Exception:
+            # Not supported (NotImplementedError), or the docstring can't be converted;
+            # in the latter case the error is reported when the docstring itself is rendered.
             return None
         contents = build_table_of_content(document, depth=depth)
         docstring_toc = new_document('toc')
